@@ -299,7 +299,7 @@ fn judge_list(c: &ListCase, cls: &mut Classifier) -> Verdict {
 }
 
 pub fn run(ctx: &mut Ctx) {
-    ctx.rule = "public API: transactions of all shapes whose calldata has every length 0..=1100 (for length 1 every byte value), lengths 65534..65538 (and 2^24-1..2^24+1 in thorough), every integer byte width 0..=32 x top byte {01,7f,80,ff} in every numeric field, access lists of 0..8 entries x 0..8 slots and entries with ~1986 slots (list payloads around 55/56, 255/256, 65535/65536), recipient present/absent; each is signed and must strictly decode (canonical-only decoder) to the original values, equal the reference encoder byte for byte, and no two different records may share an encoding. With the verif-hooks re-export: len() for every length below 2^17 (2^25 thorough), 2^k-1,2^k,2^k+1 up to 2^63 and random 64-bit lengths, both offsets; bytes() for every length 0..=1100 and all singletons; uint() for every width x boundary pattern; list()/iter() over item multisets on each payload boundary. Non-trivial: payload length not one of the pinned 56/1024 examples; distinct by recipe.".into();
+    ctx.rule = "public API: transactions of all shapes whose calldata has every length 0..=1100 (for length 1 every byte value), lengths 65534..65538 (and 2^24-1..2^24+1 in thorough), every integer byte width 0..=32 x top byte {01,7f,80,ff} in every numeric field, access lists of 0..8 entries x 0..8 slots and entries with ~1986 slots (list payloads around 55/56, 255/256, 65535/65536), recipient present/absent; each is signed and must strictly decode (canonical-only decoder) to the original values, equal the reference encoder byte for byte, and no two different records may share an encoding. With the verif-hooks re-export: len() for every length below 2^21 (2^26 thorough), 2^k-1,2^k,2^k+1 up to 2^63 and random 64-bit lengths, both offsets; bytes() for every length 0..=1100 and all singletons; uint() for every width x boundary pattern; list()/iter() over item multisets on each payload boundary. Non-trivial: payload length not one of the pinned 56/1024 examples; distinct by recipe.".into();
     ctx.assumptions = vec!["the strict decoder is the oracle for canonicity; it is unit-tested in the harness".into()];
     ctx.replay_known_and_regressions(&replay);
     *SEEN.lock().unwrap() = Some(HashMap::new());
@@ -366,7 +366,7 @@ pub fn run(ctx: &mut Ctx) {
     *SEEN.lock().unwrap() = None;
 
     // hook sweeps
-    let top: u64 = t.pick(1 << 17, 1 << 25);
+    let top: u64 = t.pick(1 << 21, 1 << 26);
     let chunk = top / 64;
     let mut ranges: Vec<HeaderRange> = (0..64).map(|i| HeaderRange { start: i * chunk, end: (i + 1) * chunk, explicit: vec![] }).collect();
     let mut explicit = vec![];
